@@ -955,3 +955,44 @@ Example c08_capped_hostile_examples :
   NV.Cram.FqzCap.fqz_decode_capped (u32max ++ [5; 0; 0; 0; 0; 3; 149; 127; 15; 0; 0; 0; 0; 0]) = NV.Cram.Cap.Capped /\
   NV.Cram.Nx16Cap.nx_decode_s_capped [160; 130; 44; 1; 65; 0] 0 = NV.Cram.Cap.Within (DOk (repeat 65 300)).
 Proof. vm_compute. repeat split; reflexivity. Qed.
+
+(* ---------- tenth wave: fqzcomp decoder-only feature HAVE_QMAP (NV.Cram.FqzQmap) ---------- *)
+From NV Require Cram.FqzQmap Cram.FqzQmapProofs.
+
+(* the decoder with the quality map answers exactly what the decoder of the earlier theorems
+   answers on every stream that one supports *)
+Theorem c08_fqz_qmap_conservative : forall bs,
+  NV.Cram.Fqz.fqz_decode bs <> NV.Cram.Fqz.FUnsupported ->
+  NV.Cram.FqzQmap.fqz_decode_qm bs = NV.Cram.Fqz.fqz_decode bs.
+Proof. exact NV.Cram.FqzQmapProofs.fqz_decode_qm_conservative. Qed.
+Print Assumptions c08_fqz_qmap_conservative.
+
+Theorem c08_fqz_qmap_decode_never_panics : forall bs,
+  Forall (fun b => b < 256) bs -> NV.Cram.FqzQmap.fqz_decode_qm bs <> NV.Cram.Fqz.FPanic.
+Proof. exact NV.Cram.FqzQmapProofs.fqz_decode_qm_never_panics. Qed.
+Print Assumptions c08_fqz_qmap_decode_never_panics.
+
+(* loop level: the mapped loop = the plain loop's symbols mapped one by one (a symbol outside the
+   map is an error), contexts driven by the unmapped symbols *)
+Theorem c08_fqz_qmap_loop_spec : forall k pr qmap ms st first pos last_len ctx q_ctx bs,
+  NV.Cram.FqzQmapProofs.qm_rel qmap
+    (NV.Cram.Fqz.fqz_dec_loop k pr ms st first pos last_len ctx q_ctx bs)
+    (NV.Cram.FqzQmap.fqz_dec_loop_qm k pr qmap ms st first pos last_len ctx q_ctx bs).
+Proof. exact NV.Cram.FqzQmapProofs.fqz_dec_loop_qm_spec. Qed.
+Print Assumptions c08_fqz_qmap_loop_spec.
+
+(* stream level: HAVE_QMAP stream = the map applied to the answer on the stream without the flag
+   bit and without the map bytes *)
+Theorem c08_fqz_qmap_stream_spec : forall bs bs' size ver gfl c0 c1 pfl pfl' maxsym qq qs pd qm rest,
+  read_uint7 bs = U7Ok size (ver :: gfl :: c0 :: c1 :: pfl :: maxsym :: qq :: qs :: pd :: qm ++ rest) ->
+  read_uint7 bs' = U7Ok size (ver :: gfl :: c0 :: c1 :: pfl' :: maxsym :: qq :: qs :: pd :: rest) ->
+  length qm = N.to_nat maxsym ->
+  (pfl / 16) mod 2 = 1 -> (pfl' / 16) mod 2 = 0 ->
+  (pfl' / 2) mod 2 = (pfl / 2) mod 2 -> (pfl' / 4) mod 2 = (pfl / 4) mod 2 ->
+  (pfl' / 8) mod 2 = (pfl / 8) mod 2 -> (pfl' / 32) mod 2 = (pfl / 32) mod 2 ->
+  (pfl' / 64) mod 2 = (pfl / 64) mod 2 -> (pfl' / 128) mod 2 = (pfl / 128) mod 2 ->
+  Forall (fun b => b < 256) bs' ->
+  NV.Cram.FqzQmap.fqz_decode_qm bs
+  = NV.Cram.FqzQmapProofs.qm_post_f qm (NV.Cram.FqzQmap.fqz_decode_qm bs').
+Proof. exact NV.Cram.FqzQmapProofs.fqz_decode_qm_spec. Qed.
+Print Assumptions c08_fqz_qmap_stream_spec.
